@@ -452,7 +452,8 @@ partial def runCase (lines : Array String) : Array String := Id.run do
       let body0 := rest.filter (fun t => !t.startsWith "m=")
       let mut iop : Mon.ImplOp := { body := (if body0.head? == some "send" then "write" :: body0.drop 1 else body0),
                                     isSend := body0.head? == some "send",
-                                    masks := (parseMasks toks).map Mask.toBytes }
+                                    masks := (parseMasks toks).map Mask.toBytes,
+                                    newCfg := if body0.head? == some "setcfg" then some (parseCfg toks).2.1 else none }
       while j < lines.size do
         let t := words lines[j]!
         match t with
